@@ -54,7 +54,7 @@ package compile
 //@   preserves c.filter
 //@   ensures result == feat_ifon(n)
 //@ func (*Compiler).IgnoreNode
-//@   requires c != nil && node != nil
+//@   requires c != nil
 //@   modifies *
 //@   preserves c.filter
 //@   ensures result == (node_notsupported(node) || exists(k, 0, node_nchildren_of(node, parse.NodeIfFeature), !feat_ifon(iffs(node, k))))
